@@ -162,3 +162,114 @@ def emit_exec(w, texec, name, calls, expect=None):
         idx.append(w.add(c.op(cfgno, texec), expect))
     w.add('end %d' % texec)
     return idx
+
+
+# ---------------------------------------------------------------- independent structure-aware parser
+
+def parse_snap(content):
+    """Independent parser of the multi-entry file format: returns [(id_without_brackets, body)] in
+    file order, or None if the bytes are not of the form (\\n [id] \\n body \\n --- \\n)*.
+    Stored bodies are escaped, so the first '---' line after a header ends the entry."""
+    if content == b'':
+        return []
+    ls = content.split(b'\n')
+    if ls[-1] != b'':
+        return None
+    ls = ls[:-1]
+    out, i = [], 0
+    while i < len(ls):
+        if ls[i] != b'' or i + 1 >= len(ls):
+            return None
+        hdr = ls[i + 1]
+        if not (hdr.startswith(b'[') and hdr.endswith(b']')):
+            return None
+        j = i + 2
+        while j < len(ls) and ls[j] != b'---':
+            j += 1
+        if j >= len(ls):
+            return None
+        out.append((hdr[1:-1], b'\n'.join(ls[i + 2:j])))
+        i = j + 1
+    return out
+
+
+def esc(b):
+    return b'\n'.join(b'/-/-/-/' if l == b'---' else l for l in b.split(b'\n'))
+
+
+def unesc(b):
+    return b'\n'.join(b'---' if l == b'/-/-/-/' else l for l in b.split(b'\n'))
+
+
+def snap_file_suffix(cfgline):
+    """relative path (under the world root) of the multi-entry file a cfg addresses"""
+    t = cfgline.split()
+    d = core.unhx(t[2]).decode()
+    fn = core.unhx(t[3]).decode() if t[3] != '-' else 'zz_verif_harness_test'
+    ext = core.unhx(t[4]).decode() if t[4] != '-' else ''
+    return '/%s/%s.snap%s' % (d, fn, ext)
+
+
+def mutate_text(g, b):
+    """a text different from b, by one small edit; returns (new, tag)"""
+    r = g.r
+    for _ in range(20):
+        k = r.randrange(9)
+        ls = b.split(b'\n')
+        if k == 0:
+            n, tag = b + b'\n', 'add-trailing-nl'
+        elif k == 1 and b.endswith(b'\n'):
+            n, tag = b[:-1], 'drop-trailing-nl'
+        elif k == 2:
+            n, tag = b + b' ', 'trailing-space'
+        elif k == 3 and b:
+            i = r.randrange(len(b))
+            c = b[i:i + 1]
+            n, tag = b[:i] + (c.swapcase() if c.swapcase() != c else b'#') + b[i + 1:], 'one-byte'
+        elif k == 4:
+            i = r.randrange(len(b) + 1)
+            n, tag = b[:i] + bytes([r.choice([0x80, 0xff, 0xfe])]) + b[i:], 'insert-high-byte'
+        elif k == 5 and any(x >= 0x80 for x in b):
+            i = r.choice([j for j, x in enumerate(b) if x >= 0x80])
+            n, tag = b[:i] + bytes([b[i] ^ 1]) + b[i + 1:], 'flip-high-byte'
+        elif k == 6:
+            i = r.randrange(len(ls) + 1)
+            n, tag = b'\n'.join(ls[:i] + [g.line()] + ls[i:]), 'insert-line'
+        elif k == 7 and len(ls) > 1:
+            i = r.randrange(len(ls))
+            n, tag = b'\n'.join(ls[:i] + ls[i + 1:]), 'delete-line'
+        elif k == 8:
+            n, tag = b'\n' + b, 'leading-nl'
+        else:
+            continue
+        if n != b:
+            return n, tag
+    return b + b'x', 'append'
+
+
+def mutate_call(g, c):
+    """a call of the same kind whose formatted value differs"""
+    import json as _json
+    if c.kind in ('snap', 'sasnap'):
+        if isinstance(c.payload, (list, tuple)):
+            vals = list(c.payload)
+            i = g.r.randrange(len(vals))
+            vals[i], tag = mutate_text(g, vals[i])
+            return Call(c.kind, vals), tag
+        n, tag = mutate_text(g, c.payload)
+        return Call(c.kind, n), tag
+    if c.kind in ('json', 'sajson'):
+        try:
+            v = _json.loads(c.payload.decode())
+        except Exception:
+            return None, None
+        v2 = {'__changed__': v} if g.r.random() < 0.5 else [v, 1]
+        return Call(c.kind, _json.dumps(v2).encode(), c.form if c.form != 'v' else 's'), 'json-wrap'
+    if c.kind == 'yaml':
+        return Call('yaml', c.payload + (b'zz_extra: 1\n' if c.payload.endswith(b'\n') else b'\nzz_extra: 1'), c.form), 'yaml-add-key'
+    return None, None
+
+
+def conflated(a, b):
+    """D10: two texts that differ only by `---` lines versus `/-/-/-/` lines"""
+    return a != b and unesc(a) == unesc(b)
